@@ -223,6 +223,9 @@ func (m *Machine) Assert(c *term.Term, label string) {
 		m.observed = append(m.observed, "assert-fail:"+label)
 		panic(abort{abExit, "assert failed in concrete mode"})
 	}
+	if !c.IsConst() {
+		m.symDecs++
+	}
 	notc := term.Not(c)
 	rest := notc
 	for _, k := range known {
